@@ -339,6 +339,51 @@ def main():
             yield (lat_curve(rnd.randint(1, 4), 2, 4), lat_curve(rnd.randint(1, 4), 2, 4)), "intersections"
         for _ in range(20 if not thorough else 200):
             yield (fa(G.smooth_float_net(rnd, 2, rnd.randint(2, 6))), fa([list(reversed(r)) for r in G.smooth_float_net(rnd, 2, rnd.randint(2, 6))])), "intersections"
+        # overlapping sub-arcs of one injective dyadic parent (x strictly increasing), every relative position of the two
+        # parameter windows (contained either way, staggered either way, touching, disjoint), both directions of the
+        # second arc, optionally degree elevated: exercises coincident_parameters / add_coincident_parameters branch by
+        # branch; the nodes are exact (dyadic windows, integer parent), so both implementations see identical data
+        from fractions import Fraction as Fr
+        wins = [(Fr(a, 8), Fr(b, 8)) for a in range(0, 8) for b in range(a + 2, 9)]
+        for n in (2, 3, 4):
+            par = [list(np.cumsum([rnd.randint(1, 3) for _ in range(n + 1)])), [rnd.randint(-3, 3) * 4 for _ in range(n + 1)]]
+            if len({tuple(c) for c in zip(*par)}) < n + 1 or all(par[1][j + 1] - par[1][j] == par[1][1] - par[1][0] for j in range(n)):
+                par[1][1] += 4
+            prs = [(w1, w2) for w1 in wins for w2 in wins]
+            rnd.shuffle(prs)
+            for (a, b), (c, d) in prs[:(14 if not thorough else 150)]:
+                first = [[float(v) for v in X.specialize_exact(r, a, b)] for r in par]
+                for rev in (False, True):
+                    lo, hi = (d, c) if rev else (c, d)
+                    second = [X.specialize_exact(r, lo, hi) for r in par]
+                    if rnd.random() < 0.3:
+                        second = [X.elevate_exact(r) for r in second]
+                    yield (fa(first), fa([[float(v) for v in r] for r in second])), "intersections"
+        # tangential contact of curves of DIFFERENT degree at a parameter that is dyadic only at depth 10 (so that the
+        # double-root Newton iteration, not an end-point check, has to find it): parabola y = x^2 against the cubic
+        # y = x^2 + k (x - x0)^2 (x + 1); exact dyadic nets
+        for x0n, k in ((341, 1), (683, 2), (205, -1), (819, 1)):
+            x0 = Fr(x0n, 1024)
+            quad_pw = ([Fr(-1, 2), Fr(2)], X.poly_mul([Fr(-1, 2), Fr(2)], [Fr(-1, 2), Fr(2)]))          # x = 2s - 1/2, y = x^2
+            cub_y = X.poly_add([Fr(0), Fr(0), Fr(1)], X.poly_scale(X.poly_mul(X.poly_mul([-x0, Fr(1)], [-x0, Fr(1)]), [Fr(1), Fr(1)]), Fr(k)))
+            cub_pw = ([Fr(0), Fr(1)], cub_y)
+
+            def to_bern(pw, n):
+                pw = list(pw) + [Fr(0)] * (n + 1 - len(pw))
+                from math import comb
+                return [float(sum(Fr(comb(j, i), comb(n, i)) * pw[i] for i in range(j + 1))) for j in range(n + 1)]
+            c2 = fa([to_bern(quad_pw[0], 2), to_bern(quad_pw[1], 2)])
+            c3 = fa([to_bern(cub_pw[0], 3), to_bern(cub_pw[1], 3)])
+            yield (c2, c3), "intersections"
+            yield (c3, c2), "intersections"
+            yield (c3, fa([[float(v) for v in X.elevate_exact([Fr(x) for x in r])] for r in c2.tolist()])), "intersections"
+        # collinear lattice segments (the compiled parallel_lines_parameters is reachable only through this entry point)
+        for _ in range(40 if not thorough else 400):
+            dx, dy = rnd.choice([(1, 0), (0, 1), (1, 1), (2, 1), (1, -2)])
+            a0, a1, b0, b1 = (rnd.randint(-4, 4) for _ in range(4))
+            if a0 == a1 or b0 == b1:
+                continue
+            yield (fa([[a0 * dx, a1 * dx], [a0 * dy, a1 * dy]]), fa([[b0 * dx, b1 * dx], [b0 * dy, b1 * dy]])), "intersections"
 
     @reg("_intersection_helpers.newton_refine", "mixed")
     def _():
